@@ -1685,6 +1685,7 @@ EGLPNUM_TYPENAME_QSLIB_INTERFACE int EGLPNUM_TYPENAME_QSload_basis (
 	QSbasis * B)
 {
 	int rval = 0;
+	EGLPNUM_TYPENAME_ILLlp_basis tmp;
 
 	rval = check_qsdata_pointer (p);
 	CHECKRVALG (rval, CLEANUP);
@@ -1693,6 +1694,15 @@ EGLPNUM_TYPENAME_QSLIB_INTERFACE int EGLPNUM_TYPENAME_QSload_basis (
 	{
 		QSlog("size of basis does not match lp");
 		rval = 1;
+		goto CLEANUP;
+	}
+
+	/* convert and validate first: an invalid basis must not replace the stored one */
+	EGLPNUM_TYPENAME_ILLlp_basis_init (&tmp);
+	rval = qsbasis_to_illbasis (B, &tmp);
+	if (rval)
+	{
+		EGLPNUM_TYPENAME_ILLlp_basis_free (&tmp);
 		goto CLEANUP;
 	}
 
@@ -1705,9 +1715,7 @@ EGLPNUM_TYPENAME_QSLIB_INTERFACE int EGLPNUM_TYPENAME_QSload_basis (
 	{
 		EGLPNUM_TYPENAME_ILLlp_basis_free (p->basis);
 	}
-
-	rval = qsbasis_to_illbasis (B, p->basis);
-	CHECKRVALG (rval, CLEANUP);
+	*(p->basis) = tmp;
 
 	p->factorok = 0;
 
@@ -1770,6 +1778,28 @@ EGLPNUM_TYPENAME_QSLIB_INTERFACE int EGLPNUM_TYPENAME_QSload_basis_array (
 		QSlog("EGLPNUM_TYPENAME_QSload_basis_array called without rstat");
 		rval = 1;
 		goto CLEANUP;
+	}
+
+	{
+		int nbas = 0;
+		for (i = 0; i < qslp->nstruct; i++)
+		{
+			if (cstat[i] == QS_COL_BSTAT_BASIC) nbas++;
+			else if (cstat[i] != QS_COL_BSTAT_LOWER && cstat[i] != QS_COL_BSTAT_UPPER &&
+							 cstat[i] != QS_COL_BSTAT_FREE) nbas = -(qslp->nrows + qslp->nstruct + 1);
+		}
+		for (i = 0; i < qslp->nrows; i++)
+		{
+			if (rstat[i] == QS_ROW_BSTAT_BASIC) nbas++;
+			else if (rstat[i] != QS_ROW_BSTAT_LOWER && rstat[i] != QS_ROW_BSTAT_UPPER)
+				nbas = -(qslp->nrows + qslp->nstruct + 1);
+		}
+		if (nbas != qslp->nrows)
+		{
+			QSlog("EGLPNUM_TYPENAME_QSload_basis_array: basis is not valid");
+			rval = 1;
+			goto CLEANUP;
+		}
 	}
 
 	if (p->basis == 0)
@@ -2021,12 +2051,16 @@ static int qsbasis_to_illbasis (
 	for (i = 0; i < qB->nstruct; i++)
 	{
 		if(qB->cstat[i] == QS_COL_BSTAT_BASIC) nbas++;
+		else if(qB->cstat[i] != QS_COL_BSTAT_LOWER && qB->cstat[i] != QS_COL_BSTAT_UPPER &&
+						qB->cstat[i] != QS_COL_BSTAT_FREE) nbas = -(qB->nrows + qB->nstruct + 1);
 		B->cstat[i] = qB->cstat[i];
 	}
 
 	for (i = 0; i < qB->nrows; i++)
 	{
 		if(qB->rstat[i] == QS_ROW_BSTAT_BASIC) nbas++;
+		else if(qB->rstat[i] != QS_ROW_BSTAT_LOWER && qB->rstat[i] != QS_ROW_BSTAT_UPPER)
+			nbas = -(qB->nrows + qB->nstruct + 1);
 		B->rstat[i] = qB->rstat[i];
 	}
 
